@@ -66,6 +66,8 @@ class Ty:
 
 
 INT, BOOL, STR, BYTES, NONE = Ty("Int"), Ty("Bool"), Ty("Str"), Ty("Bytes"), Ty("None")
+#: an object of which only `is None` / truthiness is ever asked (e.g. a regex match object)
+OBJ = Ty("Obj")
 
 
 def Opt(t):
@@ -87,7 +89,7 @@ def lean_ty(t: Ty, top=True) -> str:
         return "Pre.Str"
     if t.kind == "Bytes":
         return "Bytes"
-    if t.kind == "None":
+    if t.kind in ("None", "Obj"):
         return "Unit"
     if t.kind == "Opt":
         s = "Option " + lean_ty(t.args[0], False)
@@ -165,6 +167,9 @@ class Fn:
     extra: tuple = ()
     #: indices (into params) of arguments that must be non-empty str/bytes literals
     nonempty_lit: tuple = ()
+    #: the Lean model covers only part of the Python function's domain and answers with a marker
+    #: error outside it: such a call must not sit inside `try` (a handler would swallow the marker)
+    partial_model: bool = False
 
 
 EXC_PARENT = {
@@ -208,13 +213,25 @@ METHODS = {
     ("Str", "rpartition"): Fn("Pre.rpartition", [STR, STR], Tup(STR, STR, STR), nonempty_lit=(1,)),
     ("Str", "lower"): Fn("Pre.lower", [STR], STR),
     ("Str", "upper"): Fn("Pre.upper", [STR], STR),
-    ("Str", "replace"): Fn("Pre.replace", [STR, STR, STR], STR, nonempty_lit=(1,)),
+    ("Str", "replace"): Fn("Pre.replace", [STR, STR, STR], STR),
     ("Str", "isascii"): Fn("Pre.isascii", [STR], BOOL),
+    ("Str", "split/0"): Fn("Pre.splitWs", [STR], Lst(STR)),
+    ("Str", "join"): Fn("Pre.join", [STR, Lst(STR)], STR),
+    ("Str", "strip/0"): Fn("Pre.strip", [STR], STR),
+    ("Str", "lstrip/0"): Fn("Pre.lstrip", [STR], STR),
+    ("Str", "rstrip/0"): Fn("Pre.rstrip", [STR], STR),
+    ("Str", "strip/1"): Fn("Pre.stripChars", [STR, STR], STR),
+    ("Str", "lstrip/1"): Fn("Pre.lstripChars", [STR, STR], STR),
+    ("Str", "rstrip/1"): Fn("Pre.rstripChars", [STR, STR], STR),
 }
 
 #: module-level functions and bound methods of module-level objects, by dotted source name
 FUNCS = {
     "_plain_int": Fn("Pre.plainInt", [STR], INT, raises=("ValueError",)),
+    # re.compile(r"-?\d+", re.ASCII).fullmatch - the generator pins the pattern source
+    "_plain_int_re.fullmatch": Fn("Pre.plainIntReFullmatch", [STR], Opt(OBJ)),
+    # int(str): modelled on -?[0-9]+ only, marker error elsewhere
+    "int": Fn("Pre.pyIntPlain", [STR], INT, raises=("ValueError",), partial_model=True),
     "posixpath.normpath": Fn("Wz.Paths.normpath", [STR], STR),
     "posixpath.isabs": Fn("Wz.Paths.isabs", [STR], BOOL),
     # posixpath.join(a, *p) called as join(*parts): TypeError when parts is empty
@@ -535,6 +552,8 @@ class Translator:
             return self.negate(E(f"{P(e)}.isEmpty", BOOL, None, True))
         if e.ty == INT:
             return self.negate(E(f"{P(e)} == 0", BOOL))
+        if e.ty == OBJ:
+            return TRUE
         if e.ty.kind == "Opt":
             if e.var is not None:
                 raise NeedUnwrap(e.var, node)  # statement level splits first; reaching here is unguarded
@@ -898,6 +917,8 @@ class Translator:
         if isinstance(f, ast.Attribute):
             recv = self.plain(self.expr(f.value, env), f.value)
             key = (recv.ty.kind, f.attr)
+            if key not in METHODS:
+                key = (recv.ty.kind, f"{f.attr}/{len(n.args)}")  # arity-dependent methods
             if key in METHODS:
                 return METHODS[key], [f.value] + list(n.args)
             self.bad(n, f"method {f.attr!r} of a {recv.ty} is not in py2lean's METHODS table")
@@ -983,6 +1004,16 @@ class Translator:
 
     # ---- raising calls inside a statement --------------------------------
 
+    def static_value(self, n):
+        """the truth value the signature spec assigns to this exact source text, or None"""
+        if not self.spec.static or not isinstance(n, ast.expr):
+            return None
+        try:
+            src = ast.unparse(n)
+        except Exception:  # noqa: BLE001
+            return None
+        return bool(self.spec.static[src]) if src in self.spec.static else None
+
     def raising_calls(self, expr_node, env):
         """raising calls inside an expression, with a flag telling whether the call sits under a
         short-circuiting construct (then evaluation order cannot be kept by binding it first)"""
@@ -994,8 +1025,11 @@ class Translator:
                     res = self.resolve_call(x, env)
                 except (NeedUnwrap, NoneUsed):
                     raise
-                if res is not None and res[0].raises:
-                    found.append((x, res, lazy))
+                if res is not None:
+                    if res[0].raises:
+                        found.append((x, res, lazy))
+                    # descend into the arguments the call was resolved to (a pattern such as
+                    # `X.encode(..).decode(..)` hides its inner calls)
                     for a in res[1]:
                         if isinstance(a, ast.AST):
                             walk(a, lazy)
@@ -1011,10 +1045,16 @@ class Translator:
                     walk(x.value, lazy)
                     walk(x.slice, lazy)
                     return
+            if self.static_value(x) is not None:
+                return
             if isinstance(x, ast.BoolOp):
-                walk(x.values[0], lazy)
-                for v in x.values[1:]:
-                    walk(v, True)
+                for i, v in enumerate(x.values):
+                    sv = self.static_value(v)
+                    if sv is not None:
+                        if sv == isinstance(x.op, ast.Or):
+                            return  # Python never evaluates the operands after this one
+                        continue
+                    walk(v, lazy or i > 0)
                 return
             if isinstance(x, ast.IfExp):
                 walk(x.test, lazy)
@@ -1041,7 +1081,7 @@ class Translator:
     # ---- statements -----------------------------------------------------
 
     def comment(self, node, text=None):
-        t = text if text is not None else self.srcline(node)
+        t = text if text is not None else getattr(node, "_py2lean_comment", None) or self.srcline(node)
         return [f"-- {t}"] if t else []
 
     def block(self, stmts, env, loop, k):
@@ -1164,6 +1204,8 @@ class Translator:
                 node, res, lazy = rc[0]
                 if lazy:
                     self.bad(s, "a raising call under a short-circuiting operator")
+                if res is not None and res[0].partial_model and handlers is not None:
+                    self.bad(s, f"{res[0].lean} is a partial model (marker error outside its domain) and must not be called inside try")
                 self.tmp += 1
                 tmp = f"v{self.tmp}_"
                 if res is None:
@@ -1378,7 +1420,27 @@ class Translator:
             items.append(self.coerce(E(v.lean, v.ty, None, True, nm), ty, node).lean)
         return "(" + ", ".join(items) + ")" if len(items) > 1 else (items[0] if _is_atomic_text(items[0]) else f"({items[0]})")
 
+    def stmt_for_unrolled(self, s, env, loop, k):
+        """`for x in (a, b, ...):` over a tuple / list *literal*: the body is repeated once per item
+        (`x = a; body; x = b; body`); `break` / `continue` are not supported in such a body"""
+        if s.orelse or not isinstance(s.target, ast.Name):
+            self.bad(s, "unrolled for with else / a tuple target")
+        for x in ast.walk(ast.Module(body=s.body, type_ignores=[])):
+            if isinstance(x, (ast.Break, ast.Continue)):
+                self.bad(x, "break / continue in a loop over a literal tuple")
+        stmts = []
+        for item in s.iter.elts:
+            a = ast.Assign(targets=[ast.Name(id=s.target.id, ctx=ast.Store())], value=item)
+            ast.copy_location(a, s)
+            ast.fix_missing_locations(a)
+            a._py2lean_comment = f"{self.srcline(s)}   [unrolled: {s.target.id} = {ast.unparse(item)}]"
+            stmts.append(a)
+            stmts += s.body
+        return self.block(stmts, env, loop, k)
+
     def stmt_for(self, s, env, loop, k):
+        if isinstance(s.iter, (ast.Tuple, ast.List)):
+            return self.stmt_for_unrolled(s, env, loop, k)
         if loop is not None:
             self.bad(s, "nested loops")
         if s.orelse:
